@@ -89,6 +89,38 @@ packet Delta { f64 d, char[3] c, }
 packet Eps { i16 e, }
 packet Zeta { u8 K, match K as Z { 1 : Eps, 2 : Delta, }, }
 """,
+    # configuration-level NUL padding: the shared default cell holds the escaped form
+    "cfgnul": opts("    FixedStringPadChar = '\\x00';\n") + """root packet R {
+    u8 T,
+    char[4] A,
+    repeat char[3] As,
+    zchar[4] Z,
+    @leftPad('0') char[2] C,
+}
+""",
+    # the same inline object name in several packets, inline objects nested, a packet used from several places
+    "inlinedup": opts() + """root packet Order {
+    u16 Kind,
+    repeat Party {
+        u8 Role,
+        string Id,
+    },
+    Leg {
+        u32 Qty,
+        Party {
+            u8 Role,
+        },
+    },
+    match Kind as Body {
+        1 : NewOrder,
+        [2, 3] : CancelOrder,
+        4 : NewOrder,
+    },
+}
+packet NewOrder { repeat Party { u8 Role, string Id, }, u64 Px, Shared, }
+packet CancelOrder { Party { u8 Role, }, Shared, repeat Shared Others, }
+packet Shared { u8 s, }
+""",
     # no padding cells beyond the default; little-endian; lenof + checksum
     "lencheck": opts("    LittleEndian = true;\n") + """root packet R {
     u16 T,
